@@ -192,8 +192,86 @@ impl Response {
         }
     }
     pub fn parse_bytes(bytes: &[u8]) -> Result<Self, ::serde_bencode::Error> {
+        if bencode_nesting_too_deep(bytes) {
+            return Err(::serde_bencode::Error::Custom(
+                "response is too deeply nested".into(),
+            ));
+        }
+
         ::serde_bencode::from_bytes(bytes)
     }
+}
+
+/// Maximum nesting depth of lists and dictionaries in responses passed on to
+/// the bencode deserializer. Valid responses are at most three levels deep.
+const MAX_BENCODE_NESTING_DEPTH: usize = 32;
+
+/// Check if bencoded data nests lists/dictionaries deeper than reasonable
+///
+/// Deserialization is recursive, so deeply nested input from the network
+/// could otherwise overflow the stack of the calling thread.
+fn bencode_nesting_too_deep(bytes: &[u8]) -> bool {
+    let mut depth = 0usize;
+    let mut position = 0usize;
+
+    while let Some(byte) = bytes.get(position) {
+        match byte {
+            b'l' | b'd' => {
+                depth += 1;
+
+                if depth > MAX_BENCODE_NESTING_DEPTH {
+                    return true;
+                }
+
+                position += 1;
+            }
+            b'e' => {
+                depth = depth.saturating_sub(1);
+                position += 1;
+            }
+            b'i' => {
+                // Skip integer, including its end marker
+                match bytes[position..].iter().position(|b| *b == b'e') {
+                    Some(offset) => position += offset + 1,
+                    None => return false,
+                }
+            }
+            b'0'..=b'9' => {
+                // Skip byte string
+                let mut len = 0usize;
+
+                loop {
+                    match bytes.get(position) {
+                        Some(digit @ b'0'..=b'9') => {
+                            len = match len
+                                .checked_mul(10)
+                                .and_then(|len| len.checked_add((digit - b'0') as usize))
+                            {
+                                Some(len) => len,
+                                None => return false,
+                            };
+                            position += 1;
+                        }
+                        Some(b':') => {
+                            position += 1;
+
+                            break;
+                        }
+                        _ => return false,
+                    }
+                }
+
+                position = match position.checked_add(len) {
+                    Some(position) => position,
+                    None => return false,
+                };
+            }
+            // Invalid data: leave error reporting to deserializer
+            _ => return false,
+        }
+    }
+
+    false
 }
 
 #[cfg(test)]
